@@ -27,17 +27,6 @@ VARIABLES l, bad
 tvars == <<l, bad>>
 
 -----------------------------------------------------------------------------
-(* wire form -> TLA+ values: sets travel as arrays *)
-RECURSIVE Dec(_)
-Dec(x) ==
-  CASE x.k = "seq"  -> [x EXCEPT !.xs = [i \in DOMAIN x.xs |-> Dec(x.xs[i])]]
-    [] x.k = "map"  -> [x EXCEPT !.ps = [i \in DOMAIN x.ps |-> <<Dec(x.ps[i][1]), Dec(x.ps[i][2])>>]]
-    [] x.k = "set"  -> [x EXCEPT !.es = {Dec(x.es[i]) : i \in DOMAIN x.es}]
-    [] x.k = "sub"  -> [x EXCEPT !.x = Dec(x.x)]
-    [] x.k = "inst" -> [x EXCEPT !.fs = [i \in DOMAIN x.fs |-> <<x.fs[i][1], Dec(x.fs[i][2])>>],
-                                 !.set = Range(x.set)]
-    [] OTHER -> x
-
 -----------------------------------------------------------------------------
 (* clauses per event family; each returns the set of names of failed clauses *)
 FromDataFails(e) ==
@@ -77,40 +66,33 @@ PassesFails(e) ==
 
 SnapshotFails(e) == IF e.same = "T" THEN {} ELSE {"input-mutated"}
 
-(* Python's == does not look at the set-field record of dataclass instances *)
-RECURSIVE Strip(_)
-Strip(x) ==
-  CASE x.k = "seq"  -> [x EXCEPT !.xs = [i \in DOMAIN x.xs |-> Strip(x.xs[i])]]
-    [] x.k = "map"  -> [x EXCEPT !.ps = [i \in DOMAIN x.ps |-> <<Strip(x.ps[i][1]), Strip(x.ps[i][2])>>]]
-    [] x.k = "set"  -> [x EXCEPT !.es = {Strip(y) : y \in x.es}]
-    [] x.k = "sub"  -> [x EXCEPT !.x = Strip(x.x)]
-    [] x.k = "inst" -> [x EXCEPT !.fs = [i \in DOMAIN x.fs |-> <<x.fs[i][1], Strip(x.fs[i][2])>>], !.set = {}]
-    [] OTHER -> x
 (* C05: x obtained by conversion; d = into_data(x); x2 = from_data(d); d2 = into_data(x2) *)
 RoundTripFails(e) ==
   IF Verdict(e.ty, e.val) # "A" \/ e.x.k # "ok" THEN {}
   ELSE IF Dec(e.x.x) # Img(e.ty, e.val) THEN {}   \* a wrong image is C01's to report
+  ELSE IF ~OutEnabled(e.ty) \/ ~StdVal(Dec(e.x.x)) THEN {}   \* outside the property's precondition
   ELSE IF e.d.k # "ok" THEN {"serialise-failed"}
   ELSE LET x == Dec(e.x.x) d == e.d.x IN
        (IF ~IsData(d) THEN {"not-interchange"} ELSE {})
        \cup (IF ~SerOK(e.ty, x, d) THEN {"serialised-form"} ELSE {})
        \cup (IF e.x2.k # "ok" THEN {"reparse-failed"}
-             ELSE IF Strip(Dec(e.x2.x)) # Strip(x) THEN {"reparse-differs"}
+             ELSE IF StripX(Dec(e.x2.x), ExSet(e.ty)) # StripX(x, ExSet(e.ty)) THEN {"reparse-differs"}
              ELSE IF e.d2.k # "ok" THEN {"reserialise-failed"}
              ELSE IF ~DataEqUpToSets(e.ty, d, e.d2.x) THEN {"reserialise-differs"} ELSE {})
 
 (* C06: typed values are fixed points of convert.  Only judged when x is the value the      *)
 (* semantics says from_data(v, T) yields (otherwise C01 reports, not C06).  Equality is     *)
 (* Python's ==, which does not look at the set-field record of dataclass instances.         *)
-FixOne(o, x, name) ==
+FixOne(o, x, name, ES) ==
   IF o.k \in {"skip", "unconverted"} THEN {}
   ELSE IF o.k # "ok" THEN {name \o "-refused"}
-  ELSE IF Strip(Dec(o.x)) # Strip(x) THEN {name \o "-differs"} ELSE {}
+  ELSE IF StripX(Dec(o.x), ES) # StripX(x, ES) THEN {name \o "-differs"} ELSE {}
 FixpointFails(e) ==
   IF e.have = "F" \/ Verdict(e.ty, e.val) # "A" THEN {}
   ELSE LET x == Dec(e.x) IN
-       IF x # Img(e.ty, e.val) THEN {}
-       ELSE FixOne(e.out, x, "fixpoint") \cup FixOne(e.nat, x, "native") \cup FixOne(e.twice, x, "twice")
+       IF x # Img(e.ty, e.val) \/ ~OutEnabled(e.ty) \/ ~StdVal(x) THEN {}
+       ELSE LET ES == ExSet(e.ty) IN
+            FixOne(e.out, x, "fixpoint", ES) \cup FixOne(e.nat, x, "native", ES) \cup FixOne(e.twice, x, "twice", ES)
 
 (* C11: serialising a union value uses a member that accepts it *)
 UnionSerFails(e) ==
